@@ -162,9 +162,16 @@ def adapter_oracle(files) -> List[dict]:
         with numpy.errstate(all="ignore"):
             exp = t[:, None] * va[None] * dpdt ** 2 / (9.0 * axial[None, :, i - 1] * axial[None, :, j - 1] * cv)
         exp[t == 0] = 0.0
-        sc_ = float(numpy.max(numpy.abs(exp))) or 1.0
-        ok, err, _ = family_close(gap, exp, rtol=1e-5, scale=sc_)
-        if gap.shape != exp.shape or not ok:
+        # quantifier: positive heat-capacity fields.  Points where the QHA layer's C_V is not positive (T = 0 aside) — e.g. a data set
+        # with one q-point and one atom, whose only modes are the Γ-acoustic ones — are outside it and are not compared.
+        inq = (cv > 0) | (t == 0)[:, None]
+        if gap.shape != exp.shape:
+            fails.append({"check": "gap_e2e", "key": f"{i}{j}", "observed": list(gap.shape), "expected": list(exp.shape)}); continue
+        if not inq.any(): continue
+        g_in, e_in = numpy.where(inq, gap, 0.0), numpy.where(inq, exp, 0.0)
+        sc_ = float(numpy.max(numpy.abs(e_in))) or 1.0
+        ok, err, _ = family_close(g_in, e_in, rtol=1e-5, scale=sc_)
+        if not ok:
             fails.append({"check": "gap_e2e", "key": f"{i}{j}", "observed": gap[min(2, len(t) - 1), :4].tolist(),
                           "expected": exp[min(2, len(t) - 1), :4].tolist(), "rel": err})
         if numpy.any(gap[t == 0] != 0):
